@@ -30,7 +30,7 @@ def cell_wire(c):
     return "~".join([
         str(c["col"]), "1" if c.get("explicit", True) else "0", "1" if c.get("lower") else "0",
         "-" if c.get("style") is None else str(c["style"]), value_wire(c["val"]),
-        sf if isinstance(sf, str) else "h%d" % sf[1], "1" if c.get("tn") else "0",
+        sf if isinstance(sf, str) else "h%d" % sf[1], "1" if c.get("tn") else "0", "1" if c.get("alt") else "0",
         "-" if c.get("formula") is None else "F" + hx(c["formula"]),
         attrs_wire(c.get("extra", [])), w(c.get("inner", [])), w(c.get("junk", []))])
 
@@ -244,13 +244,15 @@ def gen_value(rng, env, cell, allow_known=True):
             cell["sform"] = sf
     elif r < 0.72:
         cell["val"] = ("B", rng.random() < 0.5)
+        cell["alt"] = rng.random() < 0.3          # the words true / false
     elif r < 0.80:
-        cell["val"] = ("X", rng.randrange(8 if allow_known and rng.random() < 0.05 else 7))
+        cell["val"] = ("X", rng.randrange(8))
     elif r < 0.86:
         cell["val"] = ("I", rng.choice(ISO))
     else:
         cell["val"] = ("K",)
         cell["tn"] = rng.random() < 0.3
+        cell["alt"] = rng.random() < 0.4          # an empty <v/>
     if cell["val"][0] in "NBXK" or (cell["val"][0] == "S" and cell.get("sform") == "f"):
         if rng.random() < 0.3:
             cell["formula"] = rng.choice(["A1+1", "SUM(B1:B9)", "IF(A1<2,\"x\",\"y\")", "", "1/0"])
